@@ -174,6 +174,11 @@ def solve_one(job):
     final = r
     if r == "sat":
         res["model"] = model
+    if final == "unknown":
+        # pure MBQI (e-matching off) decides the set/relation queries on which e-matching loops (closure axioms)
+        r5, dt5 = _check_z3_cli_model(smt2, 25)
+        note("z3-5.1-cli-noematch", r5, dt5)
+        final = r5
     if final == "unknown" or (thorough and final == "unsat"):
         r2, dt2 = _check_cvc5(smt2, 10 if not thorough else CVC5_TIMEOUT_S)
         note("cvc5-1.0.3", r2, dt2)
@@ -181,11 +186,6 @@ def solve_one(job):
             final = r2
         elif r2 != "unknown" and r2 != final:
             final = "conflict"
-    if final == "unknown":
-        # pure MBQI (e-matching off) decides many set/relation queries the default configuration loops on
-        r5, dt5 = _check_z3_cli_model(smt2, 10)
-        note("z3-5.1-cli-noematch", r5, dt5)
-        final = r5
     if final == "unknown":
         r6, dt6, model, reason = _check_z3(smt2, Z3_TIMEOUT_MS * (3 if thorough else 2), seed + 1)
         note("z3-5.1-long", r6, dt6, reason=reason)
